@@ -1379,7 +1379,9 @@ int ov_raw_seek(OggVorbis_File *vf,ogg_int64_t pos){
           if(ogg_page_bos(&og)){
             /* we traversed */
             _decode_clear(vf); /* clear out stream state */
-            ogg_stream_clear(&work_os);
+            ogg_stream_reset(&work_os); /* not _clear: the scratch state
+                                           is set up again below and must
+                                           stay allocated */
           } /* else, do nothing; next loop will scoop another page */
         }
       }
